@@ -35,3 +35,11 @@ def basisVectorMatrix (nDst nSrc : Nat) (pairs : List (Nat × Nat)) : Array (Arr
   pairs.foldl (fun m p => m.modify p.2 (fun row => row.setIfInBounds p.1 1)) (Array.replicate nDst (Array.replicate nSrc 0))
 
 end Model
+
+namespace Model
+/-- `BladeMap.__call__` on value arrays: for every pair `(from_obj, to_obj)`: `B += sum(A.value * from_obj.value) * to_obj` -/
+def bladeMapApply (dimsTo : Nat) (pairs : List (MV × MV)) (A : MV) : MV :=
+  pairs.foldl (fun B p =>
+    let dot : Rat := (List.range A.size).foldl (fun acc i => acc + A.getD i 0 * p.1.getD i 0) 0
+    (Array.range dimsTo).map fun r => B.getD r 0 + dot * p.2.getD r 0) (Array.replicate dimsTo 0)
+end Model
